@@ -74,6 +74,22 @@ def directed_cases():
     for i, args in enumerate(lists):
         for captured in (False, True):
             out.append(gen_case(_Fixed(captured), None, "d%d%s" % (i, "c" if captured else "s"), fixed=args))
+    # an argument that is itself a program call stands for ONE argument, the called program's standard output (round 7: C18-8, all
+    # three values of the inner call - output, error output, status - passed on)
+    for i, (inner, val) in enumerate([('@printf("%s", "a b")', "a b"), ('@printf("%s", "")', ""), ('@printf("%s\\n", "x")', "x"),
+                                      ('@printf("%s", "*") | @tr("*", "+")', "+")]):
+        for form in ("stmt", "captured", "second"):
+            args = [val] if form != "second" else ["first", val, "last"]
+            argtxt = inner if form != "second" else '"first", %s, "last"' % inner
+            if form == "captured":
+                src = 'so, se, code := @"./probe_exit0.sh"(%s)\nprint("[" + so + "]", code)\nprint("done")\n' % argtxt
+                exp = "[" + probe_out(args).rstrip("\n") + "] 0\ndone\n"
+            else:
+                src = '@"./probe_exit0.sh"(%s)\nprint("done")\n' % argtxt
+                exp = probe_out(args) + "done\n"
+            out.append(pipeline.Case("an%d%s" % (i, form), {"main.tsh": src.encode()},
+                                     meta=dict(src=src, expected_out=exp, extra_files={"probe_exit0.sh": PROBE}, args=args, skip=False,
+                                               expected_err=["E:probe_exit0.sh"])))
     return out
 
 
